@@ -140,8 +140,8 @@ def t_callshape(rng: random.Random, u: str, hostile: bool = False) -> Unit:
     for i in range(npos):
         params.append((f"p{i}", rng.choice(tys), None, "pos"))
     for i in range(ndef):
-        # (an i64 default combined with a required keyword-only parameter crashes mypyc itself: get_text_signature)
-        t = rng.choice(["int", "str", "float", "bool", "Optional[int]", "tuple[int, str]"] + (["i64"] if not nkw or all(kwdef) else []))
+        # (an i64/float default followed by *args, **kwargs or a keyword-only parameter crashes mypyc itself: get_text_signature)
+        t = rng.choice(["int", "str", "bool", "Optional[int]", "tuple[int, str]"] + (["i64", "float"] if not nkw and not star and not dstar else []))
         params.append((f"d{i}", t, lit(t, rng, True), "pos"))
     if star:
         params.append(("rest", "int", None, "star"))
@@ -190,7 +190,7 @@ def t_callshape(rng: random.Random, u: str, hostile: bool = False) -> Unit:
         for n, t, d, k in params:
             if k == "pos":
                 if d is not None and rng.random() < 0.5:
-                    kwmode = kwmode or rng.random() < 0.5
+                    kwmode = True  # later positional parameters can only be given by keyword now
                     tg.append("default-omitted")
                     continue
                 if kwmode or rng.random() < 0.25:
@@ -215,7 +215,7 @@ def t_callshape(rng: random.Random, u: str, hostile: bool = False) -> Unit:
                 tg.append("kwonly")
             elif k == "dstar":
                 if rng.random() < 0.7:
-                    if rng.random() < 0.5:
+                    if py and rng.random() < 0.5:
                         args.append("**{" + ", ".join(f"'x{j}': {mk('int')}" for j in range(rng.choice([1, 2]))) + "}")
                         tg.append("dstar-expansion")
                     else:
@@ -555,7 +555,7 @@ def t_exc(rng: random.Random, u: str, hostile: bool = False) -> Unit:
         src += [f"def {u}_f(n: int) -> str:", "    try:", "        try:", "            return str(1 // n)", "        except ZeroDivisionError as e:", "            if n == 0:",
                 "                raise ValueError('wrapped') from e", "            raise", "    except ValueError as v:",
                 "        return type(v.__cause__).__name__ + '/' + type(v.__context__).__name__ + '/' + str(v)", ""]
-        src += [f"def {u}_g(n: int) -> None:", "    try:", "        [1][n]", "    except IndexError:", "        {}['k' + str(n)]", ""]
+        src += [f"def {u}_g(n: int) -> None:", "    try:", "        [1][n]", "    except IndexError:", "        d: dict[str, int] = {}", "        print(d['k' + str(n)])", ""]
         calls += [{"setup": [], "call": f"{u}_f({k})", "post": []} for k in (0, 1, 5)]
         calls += [{"setup": [], "call": f"{u}_g({k})", "post": []} for k in (0, 3)]
     elif variant == "loop-finally":
